@@ -1,6 +1,7 @@
 import LLRP.Proofs.ReadSide
 import LLRP.Gen.Schema
 import LLRP.Gen.ReadFacts
+import LLRP.Proofs.SeqReadLoop
 /-!
 # C10 — a hostile or broken peer cannot crash, wedge or balloon the client
 
@@ -245,5 +246,21 @@ example : callRaw (.panics 0) = .panicked := by decide
 example : (rd { handlers := [], hasDefault := false } (fun _ => {}) [] [4, 4, 0, 0, 0, 10, 0, 0, 0, 1]).fin = .err := by decide
 -- … while the same stream during a local Shutdown is the expected end
 example : (rd { handlers := [], hasDefault := false, closing := true } (fun _ => {}) [] [4, 4, 0, 0, 0, 10, 0, 0, 0, 1]).fin = .waitDone := by decide
+
+/-! ## the read loop as translated from the source (go2seq), for every environment -/
+
+/-- **the serving call's read loop never returns success**: for every byte stream, every handler, every dispatcher
+behaviour and every `select` choice, when the translated `handleIncoming` returns it returns a non-nil error -/
+theorem src_read_loop_never_nil (E : Gen.Env_llrp_Client_handleIncoming) (fuel : Nat) (w w' : E.World) (e : GoSeq.GoErr)
+    (h : Gen.llrp_Client_handleIncoming E fuel w = some (w', e)) : e ≠ .nil :=
+  SeqClient.handleIncoming_never_nil' E fuel w w' e h
+
+/-- a failing header read (the stream ended, was cut or carried a bad header) ends the loop with an error at once -/
+theorem src_read_error_ends_loop (E : Gen.Env_llrp_Client_handleIncoming) (fuel : Nat) (w : E.World)
+    (hsel : (E.select_1 w (E.Client_done w)).2 ≠ 0)
+    (herr : (E.Client_readHeader_1 (E.select_1 w (E.Client_done w)).1).2.2 ≠ .nil) :
+    Gen.llrp_Client_handleIncoming_loop1 E (fuel + 1) w false
+      = some ((E.Client_readHeader_1 (E.select_1 w (E.Client_done w)).1).1, .new "failed to get next message: %v") :=
+  SeqClient.handleIncoming_read_error E fuel w hsel herr
 
 end LLRP.C10
